@@ -1078,6 +1078,7 @@ func (e *Ex) runScenario() core.Result {
 	} else {
 		halfSent := 0
 		skipTo := 0
+		preSent := map[string]bool{}
 		for idx, id := range e.ids {
 			if !alive {
 				break
@@ -1171,6 +1172,9 @@ func (e *Ex) runScenario() core.Result {
 				} else {
 					send = func() error { _, err := cc.c.Write(req); return err }
 				}
+				if preSent[id] {
+					send = func() error { return nil } // went out together with the CONNECT head
+				}
 				halfClose := e.conn["hc"] != "" && idx == len(e.ids)-1
 				if halfClose && e.conn["hc"] == "before" {
 					s0 := send
@@ -1232,7 +1236,24 @@ func (e *Ex) runScenario() core.Result {
 						}
 					}
 				}
-				fmt.Fprintf(cc.c, "CONNECT %s HTTP/1.1\r\nHost: %s\r\n%s: %s\r\n\r\n", authority, authority, idHeader, id)
+				head := []byte(fmt.Sprintf("CONNECT %s HTTP/1.1\r\nHost: %s\r\n%s: %s\r\n\r\n", authority, authority, idHeader, id))
+				var et *earlyTLS
+				switch {
+				case it.kind == "cmitm" && it.s("ed", "0") == "1" && it.s("tls", "1") == "1" && it.s("hf", "") == "":
+					// the ClientHello goes out in the same write as the CONNECT head (earlydata.go)
+					et = startEarlyTLS(cc, head, layerConfig(e.caseNo, idx+2, flip))
+				case it.kind == "cmitm" && it.s("ed", "0") == "1" && it.s("tls", "1") == "0" && idx+1 < len(e.ids) && w.items[e.ids[idx+1]].kind == "x" && !earlyOK(w.items[e.ids[idx+1]]) && e.conn["tpipe"] != "1":
+					// ... or the first cleartext request of the tunnel does
+					nid := e.ids[idx+1]
+					w.mu.Lock()
+					w.current = nid // upstream contact from here on is on behalf of that request
+					w.mu.Unlock()
+					sentIn(nid)
+					cc.c.Write(append(head, e.buildRequest(nid, w.items[nid])...))
+					preSent[nid] = true
+				default:
+					cc.c.Write(head)
+				}
 				res, body, berr := cc.readResponse("CONNECT")
 				if res == nil {
 					alive = false
@@ -1272,7 +1293,21 @@ func (e *Ex) runScenario() core.Result {
 					// layer idx+2: a session of its own, nested inside whatever the connection already carries
 					tc := tls.Client(&bufConn{Conn: cc.c, r: cc.br}, layerConfig(e.caseNo, idx+2, flip))
 					tc.SetDeadline(time.Now().Add(ioTimeout))
-					if err := tc.Handshake(); err != nil {
+					hs := tc.Handshake
+					if et != nil { // the handshake is under way already: let it read on
+						tc = et.tc
+						close(et.ec.goRead)
+						hs = func() error {
+							select {
+							case err := <-et.done:
+								return err
+							case <-time.After(ioTimeout):
+								isTimeout(timeoutError{})
+								return errors.New("handshake did not finish")
+							}
+						}
+					}
+					if err := hs(); err != nil {
 						w.mu.Lock()
 						w.rec(id).hij = "handshake-failed:" + err.Error()
 						w.mu.Unlock()
